@@ -143,6 +143,20 @@ class StatefulLearner:
         self.n_learn += 1
         self.h = _h(self.h, repr(context), repr(action), round(float(reward), 6), probability, sorted(kw.items()))
 
+class RngInitLearner(StatefulLearner):
+    """a learner that draws from its own seeded CobaRandom in the constructor (random initial weights) and keeps drawing from the
+       same generator while it predicts: the generator is part way through its stream when the experiment copies / pickles it"""
+    def __init__(self, tag, seed, fail=None, uni=False):
+        super().__init__(tag, "ap", fail, uni)
+        from coba.random import CobaRandom
+        self.rng = CobaRandom(seed)
+        self.w0 = self.rng.randoms(1 + seed % 4) + self.rng.gausses(seed % 3)      # an odd number of gaussians leaves one waiting
+    def predict(self, context, actions):
+        a, p = super().predict(context, actions)
+        j = self.rng.randint(0, len(actions) - 1)
+        g = self.rng.gauss(0, 1) if self.n_pred % 3 == 0 else 0
+        return actions[(actions.index(a) + j + (1 if g > 0 else 0)) % len(actions)], p
+
 class MemoryLearner(StatefulLearner):
     """a learner that is a container of what it has seen: len() == 0 (falsy) while pristine"""
     def __len__(self): return self.n_learn
